@@ -717,5 +717,5 @@ HARNESSES = [
     Harness("client", _h_client, weight=3, wall_limit=120.0),
     Harness("server-client", _h_server_client, weight=2, wall_limit=120.0),
     Harness("tls", _h_tls, weight=4, wall_limit=180.0),
-    Harness("stapled", _h_stapled, weight=2, wall_limit=60.0),
+    Harness("stapled", _h_stapled, weight=2, wall_limit=180.0),
 ]
